@@ -1,5 +1,5 @@
 """C19 — DNS messages decode exactly or are rejected; cached answers honour TTL (DESIGN.md §2 C19)."""
-from ..cfg import search, witness_str, dominated_by_edge, elem_dominates
+from ..cfg import search, witness_str, dominated_by_edge, elem_dominates, dominators
 from ..expr import show, walk, last, field_of, strip_wrappers, strip_casts, short, const_value, is_assign, assign_parts as _ap, strip_views
 from ..facts import AnalysisBroken
 from ..finite import dominating_facts, flatten_fact
@@ -24,14 +24,23 @@ EXPLANATION = (
     "copied range inside the window established since the cursor last moved, plus constant-index reads of RDATA behind a dominating "
     "size test; checkBounds itself is the non-wrapping `offset + needed > total → throw`. R2 compression pointers: the jump is behind "
     "`pointer >= size → throw` and the visited-set test, the insert precedes the jump; label <= 63 and name <= 255 tests; every loop "
-    "iteration moves the cursor or leaves. R3 section loops are driven by the 16-bit header counts through the R1-guarded readers. "
+    "iteration moves the cursor or leaves. R3 section loops are driven by the 16-bit header counts through the R1-guarded readers, in "
+    "parse() itself or in a helper that parse() hands the count to (loop bound = that parameter, cursor threaded, returned and stored). "
     "R4 parse failures are contained: DnsTransport::processResponse parses inside a try covering std::exception and completes the "
     "pending query with the error; the typed-record dispatcher contains its own failures. R5 the cache key is the case-folded name, "
     "type and class, built only through DnsCacheKey::fromQuestion, compared on all three. R6 expiry: ExpiringCache::get returns a value "
     "only on the `expiration > now` edge, set() stores a freshly computed expiration on every path (also when the key exists), "
-    "DnsCache::put uses the minimum TTL over every record collection of DnsResult (table agreement with the struct), zero TTLs are not "
-    "handed to the default-TTL sentinel. R7 encoder limits and query/decoder field order agree. R8 RDATA of A/AAAA/TXT is opaque: no "
+    "DnsCache::put uses the minimum TTL over every record collection of DnsResult (table agreement with the struct; a collection may be "
+    "folded by a loop in calculateResultTtl or by a helper that lowers a by-reference accumulator, all folds into the one returned variable), "
+    "zero TTLs are not handed to the default-TTL sentinel. R7 encoder limits: every label is followed by the wire-size test before the name "
+    "is returned, and the constant fits what `encoded` holds when the test runs (255 with the root octet, 254 before it); query/decoder field order agree. R8 RDATA of A/AAAA/TXT is opaque: no "
     "rejection by byte content.")
+# exempt from the function-inventory guard (report.py).  Both rules look into helpers themselves where a helper can carry the
+# construct; their remaining clauses go through LocalClauses, which applies the guard's criterion clause by clause.
+FOLLOWS_HELPERS = {"C19-R3": "a section may be decoded by a helper that parse() hands the header count to: the helper's loop, its reader call, the cursor it threads and returns, and what parse() does with the result are judged "
+                             "like a loop written in parse() (header-size / header-count clauses: LocalClauses)",
+                   "C19-R6": "a record collection may be folded into the minimum by a helper that takes the collection and the accumulator by reference: the helper's loop is judged like a loop written in calculateResultTtl and its "
+                             "accumulator is mapped back to the caller's variable (get/set/put/negative-TTL clauses: LocalClauses)"}
 NOT_DECIDED = ["exactness of decoded records for all layouts", "the wall clock (steady_clock monotonicity assumed)", "amplification by reserve(count) (bounded by 4 x 65535 records)",
                "names that run to the end of the message without terminator are returned, not rejected"]
 
@@ -43,11 +52,193 @@ def dm(ctx, name, nparams=None):
     return fs[0]
 
 
-def decode_window(f, cur, sizes, bufnames, floor_from_facts=True):
+# ------------------------------------------------------------------ shape-neutral helpers
+# (what a behaviour-preserving refactoring may change without changing what a rule sees: a helper between caller and construct,
+#  an overload that only forwards, a named const local, the spelling of a set-membership test)
+
+def _nt(t):
+    """type text without cv-qualifiers, references and blanks (agreement of an argument with a parameter)"""
+    return (t or "").replace("const ", "").replace(" const", "").replace("&", "").replace(" ", "")
+
+
+def resolve_callees(fb, n):
+    """the definitions a direct call can run: same qualified name and arity; among several (overloads, instantiations of one
+    template) those whose parameter types agree with the argument types"""
+    args = n.get("args", [])
+    cands = [g for g in fb.by_name.get(n.get("callee") or "", []) if g.ok and len(g.params) == len(args)]
+    if len(cands) > 1:
+        exact = [g for g in cands if all(_nt(p.get("t")) == _nt((strip_casts(a) or {}).get("t")) for p, a in zip(g.params, args))]
+        if exact:
+            cands = exact
+    return cands
+
+
+def forward_target(fb, f):
+    """f hands its own parameters, each in its position, to ONE other definition and returns what that returns, doing nothing else
+    (an overload kept for its shorter signature; extra arguments are fresh locals): what the rules have to say about f they say
+    about the target.  None when f is not such a forwarder."""
+    if any(b.cond is not None for b in f.blocks.values()):
+        return None
+    calls = [e for e in f.stmts() if e.node.get("k") in ("call", "mcall")]
+    if len(calls) != 1 or len(common.returns(f)) > 1:
+        return None
+    c = calls[0].node
+    for e in f.stmts():
+        if "root" not in e.raw:
+            continue
+        n = e.node
+        if n.get("id") == c.get("id"):
+            continue
+        if n.get("k") == "ret" and (strip_casts(n.get("v") or {}) or {}).get("id") == c.get("id"):
+            continue
+        if n.get("k") == "decl" and all(v.get("init") is None or const_value(strip_casts(v["init"])) is not None for v in n["vars"]):
+            continue
+        return None
+    args = [strip_casts(a) or {} for a in c.get("args", [])]
+    if len(args) < len(f.params) or any(not (a.get("k") == "var" and a.get("parm") == i) for i, a in enumerate(args[:len(f.params)])):
+        return None
+    if any(a.get("k") != "var" or a.get("parm") is not None for a in args[len(f.params):]):
+        return None
+    tg = [g for g in resolve_callees(fb, c) if g is not f]
+    return tg[0] if len(tg) == 1 else None
+
+
+_ARITH = ("bool", "char", "signed char", "unsigned char", "short", "unsigned short", "int", "unsigned int", "unsigned", "long", "unsigned long", "long long", "unsigned long long")
+_OUT_PARAM_APIS = ("swap", "exchange", "from_chars", "getline", "read", "tie", "get", "operator>>")
+
+
+def const_inliner(f, fb=None):
+    """node -> node with every single-assignment local of value type replaced by its initialiser (repeatedly), provided the
+    initialiser reads nothing but constants and other such locals: `const std::size_t n = length + 1; off += n` is `off += length + 1`.
+    Single-assignment: declared `const`, or an arithmetic local that is never assigned, incremented, has its address taken or is
+    handed to a non-const reference parameter (parameters of iora's own functions are looked up; of foreign ones only the known
+    out-parameter APIs count)"""
+    table = {}
+    decls = [v for e in f.stmts() if e.node.get("k") == "decl" for v in e.node["vars"]]
+    touched = set()
+    for e in f.stmts():
+        n = e.node
+        k = n.get("k")
+        if k in ("bin", "opcall") and is_assign(n):
+            touched.add((strip_casts(_ap(n)[0]) or {}).get("d"))
+        elif k == "un" and n.get("op") in ("++", "--", "post++", "post--", "pre++", "pre--", "&"):
+            touched.add((strip_casts(n.get("v")) or {}).get("d"))
+        elif k in ("call", "mcall", "opcall", "ctor"):
+            cs = [g for g in (fb.by_name.get(n.get("callee") or "", []) if fb is not None else []) if len(g.params) == len(n.get("args", []))]
+            for i, a in enumerate(n.get("args", [])):
+                a = strip_casts(a) or {}
+                if a.get("k") != "var":
+                    continue
+                if cs:
+                    if any("&" in (g.params[i].get("t") or "") and not (g.params[i].get("t") or "").startswith("const ") for g in cs):
+                        touched.add(a.get("d"))
+                elif last(n.get("callee") or "") in _OUT_PARAM_APIS or not (n.get("callee") or "").startswith("std::"):
+                    touched.add(a.get("d"))       # a callee that cannot be looked up and is not a plain std:: function: assume it writes
+    in_lambdas = {x["n"] for (ln, lf) in (f.lambdas or []) for x in lf.nodes.values() if x.get("k") == "var"}      # captured, possibly by reference: not followed
+
+    def single(v):
+        t = (v.get("t") or "")
+        if "&" in t or "*" in t or not isinstance(v.get("init"), dict) or v.get("d") is None:
+            return False
+        return t.startswith("const ") or (t in _ARITH and v["d"] not in touched and v["n"] not in in_lambdas)
+    cands = {v["d"]: v for v in decls if single(v)}
+    changed = True
+    while changed:
+        changed = False
+        for d_, v in cands.items():
+            if d_ in table:
+                continue
+            init = v["init"]
+            if any(x.get("k") in ("call", "mcall", "opcall", "ctor", "lambda", "member", "idx", "gvar") and const_value(x) is None for x in walk(init)):
+                continue
+            if all(x.get("d") in cands for x in walk(init) if x.get("k") == "var"):
+                table[d_] = init
+                changed = True
+    if not table:
+        return lambda n: n
+    from ..facts import _subst_vars
+
+    def inl(n):
+        for _ in range(6):
+            m = _subst_vars(n, table)
+            if m is n:
+                break
+            n = m
+        return n
+    return inl
+
+
+def membership(c):
+    """a set-membership test in any of its spellings → (container key, element key, truth value of `c` when the element IS in the
+    container): `S.find(k) != S.end()`, `S.find(k) == S.end()`, `S.count(k) != 0`, `> 0`, `>= 1`, `== 0`, `< 1`, a bare
+    `S.count(k)` / `S.contains(k)`, `S.insert(k).second`, each possibly negated; None for anything else"""
+    c = strip_casts(c)
+    if c is None:
+        return None
+    if c.get("k") == "un" and c.get("op") == "!":
+        m = membership(c.get("v"))
+        return (m[0], m[1], not m[2]) if m else None
+
+    def probe(x, names):
+        x = strip_casts(x)
+        if x is not None and x.get("k") == "mcall" and last(x.get("callee", "")) in names:
+            a = [y for y in x.get("args", []) if not y.get("def")]
+            if len(a) == 1 and key_of(x.get("obj")) and key_of(strip_views(a[0])):
+                return key_of(x.get("obj")), key_of(strip_views(a[0]))
+        return None
+    p = probe(c, ("count", "contains"))
+    if p:
+        return p[0], p[1], True
+    if c.get("k") == "member" and last(c.get("n", "")) == "second" and probe(c.get("b"), ("insert", "emplace")):
+        # `S.insert(k).second` is true exactly when k was NOT in S (test and insert in one call)
+        p = probe(c.get("b"), ("insert", "emplace"))
+        return p[0], p[1], False
+    ev = {"==": lambda a, b: a == b, "!=": lambda a, b: a != b, "<": lambda a, b: a < b, "<=": lambda a, b: a <= b, ">": lambda a, b: a > b, ">=": lambda a, b: a >= b}
+    for (op, l, r) in common.cmp_both(c):
+        p = probe(l, ("find",))
+        rr = strip_casts(r) or {}
+        if p and rr.get("k") == "mcall" and last(rr.get("callee", "")) in ("end", "cend") and key_of(rr.get("obj")) == p[0] and op in ("==", "!="):
+            return p[0], p[1], op == "!="
+        p = probe(l, ("count",))
+        cv = const_value(r)
+        if p and cv is not None and not isinstance(cv, bool):
+            # count(k) is 0 for an absent element and >= 1 for a present one: the test must separate exactly those
+            t0, t1, t2 = ev[op](0, cv), ev[op](1, cv), ev[op](2, cv)
+            if t1 == t2 and t0 != t1:
+                return p[0], p[1], t1
+    return None
+
+
+class LocalClauses:
+    """r.expect for the clauses that do NOT look into helpers, inside a rule that is listed in FOLLOWS_HELPERS because its other
+    clauses do.  The inventory guard (report.py) no longer downgrades anything such a rule reports, so these clauses apply the
+    guard's own criterion themselves: a failure inside a function that is new, or that directly calls a new function (one not in
+    iora_sa/inventory.json), is a refusal — the construct may simply have moved into the helper — not a verdict.  With the guard
+    switched off (IORA_VERIF_NO_INVENTORY) nothing is tainted and this is r.expect."""
+
+    def __init__(self, ctx, r):
+        from ..report import functions_through_unknown_helpers
+        self.r = r
+        self.unknown, self.tainted = functions_through_unknown_helpers(ctx.fb(), ctx.cg())
+
+    def expect(self, cond, fn, where, construct, msg, okdesc=None, witness=None):
+        base = (getattr(fn, "name", fn) or "").split("::$lambda")[0]
+        if cond or base not in self.tainted:
+            return self.r.expect(cond, fn, where, construct, msg, okdesc=okdesc, witness=witness)
+        self.r.obligations += 1
+        m = ("%s: `%s` [%s] is reported by a clause that does not follow calls, in code that now runs through function(s) the rule tables have never seen (not in iora_sa/inventory.json): "
+             "this is not a verdict — read the new helper(s) against the rule and re-freeze the inventory (tools/mkinventory.py). What the clause saw: %s" % (self.r.id, short(base), construct, msg[:160]))
+        if m not in self.r.check.broken:
+            self.r.check.broken.append(m)
+        return False
+
+
+def decode_window(f, cur, sizes, bufnames, floor_from_facts=True, fb=None):
     """Window over one (cursor, limit) pair of a DnsMessage decode function.
     bufnames: textual forms of the buffer (`data`, `rdata`, `rr.rdata`, `rr.rdata.data()`)"""
     is_buf = lambda n: show(strip_casts(n)) in bufnames
     lam_names = {ln.get("n") for (ln, lf) in f.lambdas} if f.lambdas else set()
+    inl = const_inliner(f, fb)
 
     def strip_cur(fm):
         return form(fm[0], [s for s in fm[1] if s != cur])
@@ -73,7 +264,7 @@ def decode_window(f, cur, sizes, bufnames, floor_from_facts=True):
         ops = []
         if k in ("call", "mcall") and last(n.get("callee", "")) == "checkBounds" and len(n.get("args", [])) == 3:
             a, need, tot = n["args"]
-            fa, fn_ = lin(a), lin(need)
+            fa, fn_ = lin(inl(a)), lin(inl(need))
             if fa is not None and fn_ is not None and list(fa[1]).count(cur) == 1 and show(strip_casts(tot)) in {s.replace(".size()", "") for s in sizes} | sizes:
                 rest = strip_cur(fa)
                 ops.append(("atleast", form(rest[0] + fn_[0], list(rest[1]) + list(fn_[1]))))
@@ -106,7 +297,7 @@ def decode_window(f, cur, sizes, bufnames, floor_from_facts=True):
                     rest = strip_cur(p1)
                     ops.append(("need", rest, "%s(%s, %s)" % (last(n["callee"]), show(a[0])[:30], show(a[1])[:36])))
                 else:
-                    ln = lin(a[1])
+                    ln = lin(inl(a[1]))
                     rest = strip_cur(p0)
                     ops.append(("need", form(rest[0] + ln[0], list(rest[1]) + list(ln[1])) if ln is not None else TOP, "%s(%s, %s)" % (last(n["callee"]), show(a[0])[:36], show(a[1]))))
         elif k == "ctor" and n.get("cls") == "std::basic_string" and len([x for x in n.get("args", []) if not x.get("def")]) == 2:
@@ -126,7 +317,7 @@ def decode_window(f, cur, sizes, bufnames, floor_from_facts=True):
         elif k == "un" and n.get("op") in ("++", "pre++") and key_of(n["v"]) == cur:
             ops.append(("adv", form(1)))
         elif k == "bin" and n.get("op") == "+=" and key_of(n["lhs"]) == cur:
-            fm = lin(n["rhs"])
+            fm = lin(inl(n["rhs"]))
             ops.append(("adv", fm) if fm is not None else ("reset", None))
         elif k in ("bin", "opcall") and is_assign(n) and key_of(_ap(n)[0]) == cur:
             ops.append(("reset", None))
@@ -237,9 +428,17 @@ def r1(ctx, r):
     total = 0
     for (nm, npar, cur, sizes, bufs) in specs:
         f = dm(ctx, nm, npar)
+        tg = forward_target(fb, f)
+        if tg is not None:
+            # an overload that only forwards its parameters performs the reads of its target: judged there, under the target's
+            # own row of the table (a target the table does not list cannot be judged)
+            row = [s_ for s_ in specs if s_[0] == last(tg.name) and tg.cls == DM and (s_[1] is None or s_[1] == len(tg.params)) and s_[2] == cur]
+            if not row:
+                raise AnalysisBroken("DnsMessage::%s/%d forwards to %s, for which the window table has no (cursor, limit) row" % (nm, len(f.params), short(tg.name)))
+            (_, _, cur, sizes, bufs), f = row[0], tg
         targets = [f] + [lf for (ln, lf) in f.lambdas if lf.ok]
         for g in targets:
-            w = decode_window(g, cur, sizes, bufs)
+            w = decode_window(g, cur, sizes, bufs, fb=fb)
             total += len(w.checked) + len(w.violations)
             r.instance(len(w.checked) + len(w.violations))
             for (e, what) in w.checked:
@@ -286,24 +485,28 @@ def r1(ctx, r):
 
 def r2(ctx, r):
     f = dm(ctx, "decodeNameWithLoopDetection")
-    jump = [e for e in f.stmts() if asg(e.node) and key_of(asg(e.node)[0]) == "offset" and key_of(asg(e.node)[1]) == "pointer"]
+    inl = const_inliner(f, ctx.fb())
+    # the jump: the cursor is set to a plain 16-bit local (the decoded pointer) — every other cursor update is relative to the cursor
+    jump = [e for e in f.stmts() if asg(e.node) and key_of(asg(e.node)[0]) == "offset" and (strip_casts(asg(e.node)[1]) or {}).get("k") == "var" and key_of(asg(e.node)[1]) != "offset"]
+    ptr = key_of(asg(jump[0].node)[1]) if len(jump) == 1 else "pointer"
     def range_test(b):
         co = common.cmp_oriented(b.cond, lambda x: key_of(x) == "size") if b.cond is not None else None
-        return co if co and key_of(co[1]) == "pointer" else None
+        return co if co and key_of(co[1]) == ptr else None
     rng = [b for b in f.blocks.values() if range_test(b)]
-    vis = [b for b in f.blocks.values() if b.cond is not None and "visitedPointers.find(pointer)" in show(b.cond)]
-    ins = [e for e in f.stmts() if e.node.get("k") == "mcall" and last(e.node.get("callee", "")) == "insert" and key_of(e.node.get("obj")) == "visitedPointers"]
+    # the visited set is whatever container the pointer is looked up in and inserted into (find/end, count, contains: one test)
+    vis = [b for b in f.blocks.values() if b.cond is not None and len(b.succs) == 2 and (lambda m: m is not None and m[1] == ptr)(membership(b.cond))]
+    ins = [e for e in f.stmts() if e.node.get("k") == "mcall" and last(e.node.get("callee", "")) in ("insert", "emplace") and e.node.get("args") and key_of(strip_views(e.node["args"][0])) == ptr]
     r.instance()
     if len(jump) == 1 and not rng:
         # no explicit comparison: the range may be established through the throwing helper checkBounds(off, n, total), which
         # guarantees off + n <= total.  A valid pointer needs pointer + 1 <= size.
         cbs = [e for e in f.stmts() if e.node.get("k") in ("call", "mcall") and last(e.node.get("callee", "")) == "checkBounds" and elem_dominates(f, e, jump[0], eh=False)
-               and any(key_of(strip_casts(a)) == "pointer" for a in e.node.get("args", []))]
+               and any(key_of(strip_casts(a)) == ptr for a in e.node.get("args", []))]
         if not cbs:
             r.fail(f, jump[0], "pointer range", "the jump to a compression pointer is behind no range test at all: an out-of-range pointer is followed")
         for e in cbs:
             a = [strip_casts(x) for x in e.node["args"]]
-            others = [const_value(x) for x in a[:2] if key_of(x) != "pointer"]
+            others = [const_value(x) for x in a[:2] if key_of(x) != ptr]
             enough = len(a) >= 3 and key_of(a[2]) == "size" and len(others) == 1 and others[0] is not None and others[0] >= 1
             r.expect(enough, f, e, "pointer range", "the compression pointer is validated with `%s`, which guarantees only %s <= size: a pointer equal to the message length (one past the last byte) is accepted — the name silently "
                      "ends there and the message decodes — where `pointer >= size` must be an error" % (show(e.node)[:50], " + ".join(show(x) for x in a[:2])), okdesc="pointer + n <= size with n >= 1")
@@ -315,11 +518,15 @@ def r2(ctx, r):
             ok = op in (">=",) and dominated_by_edge(f, jump[0], rng[0], 1, eh=False)
             r.expect(ok, f, jump[0], "pointer range", "the jump to a compression pointer is not behind `pointer >= size → throw`: an out-of-range pointer is followed", okdesc="jump behind pointer < size")
         r.instance()
-        vop = common.cmp_parts(vis[0].cond)[0]
-        ok = dominated_by_edge(f, jump[0], vis[0], 1 if vop == "!=" else 0, eh=False) and elem_dominates(f, ins[0], jump[0], eh=False) and key_of(ins[0].node["args"][0]) == "pointer" and \
-            any(x.kind == "stmt" and x.node.get("k") == "throw" for x in _reach_until_ret(f, vis[0].succs[0 if vop == "!=" else 1]))
+        vset, _, vpol = membership(vis[0].cond)
+        seen_edge = 0 if vpol else 1          # the successor taken when the pointer IS in the set
+        ok = dominated_by_edge(f, jump[0], vis[0], 1 - seen_edge, eh=False) and elem_dominates(f, ins[0], jump[0], eh=False) and key_of(ins[0].node.get("obj")) == vset and \
+            any(x.kind == "stmt" and x.node.get("k") == "throw" for x in _reach_until_ret(f, vis[0].succs[seen_edge]))
         r.expect(ok, f, jump[0], "pointer loop", "a compression pointer is followed without the visited-set test and insert: a pointer loop never terminates", okdesc="jump behind not-visited test; target recorded first")
     else:
+        if len(jump) == 1 and not vis and any("root" not in e.raw for e in ins):
+            # `if (!visited.insert(p).second) throw`: test and insert in one call — sound, but not a shape this rule can judge
+            raise AnalysisBroken("decodeNameWithLoopDetection: the result of the visited-set insert is used (test and insert in one call) — a shape this rule does not know")
         if len(jump) == 1 and (len(vis) == 0 or len(ins) == 0):
             r.fail(f, jump[0], "pointer loop", "a compression pointer is followed without the visited-set %s: a pointer loop never terminates" % ("test" if not vis else "insert"))
         elif len(jump) == 1 and rng is not None and len(rng) == 0:
@@ -364,7 +571,7 @@ def r2(ctx, r):
              "of the first pointer: with chained pointers the caller resumes behind the LAST pointer followed, somewhere else in the message, and reads TYPE/CLASS/TTL from the wrong place" % resume,
              okdesc="resume position = offset + 2 at the first pointer only")
     # the pointer is read behind checkBounds(offset, 2) and masked to 14 bits
-    pd = [v for e in f.stmts() if e.node.get("k") == "decl" for v in e.node["vars"] if v["n"] == "pointer"]
+    pd = [v for e in f.stmts() if e.node.get("k") == "decl" for v in e.node["vars"] if v["n"] == ptr]
     r.instance()
     r.expect(len(pd) == 1 and "readUint16(data, offset)" in show(pd[0]["init"]) and "&" in show(pd[0]["init"]) and "short" in pd[0]["t"], f, None, "pointer value", "the compression pointer is not the masked 16-bit value at the cursor", okdesc="pointer = readUint16 & mask (16-bit)")
     # label and name limits
@@ -394,7 +601,7 @@ def r2(ctx, r):
         r.expect(mx == 254, f, None, "decoder name limit value", "the decoder lets a name through while the sum of its labels and length octets is <= %d; RFC 1035 allows 255 wire octets including the root octet, i.e. 254: %s"
                  % (mx, "legal names of %d..253 characters are rejected" % (mx,) if mx < 254 else "over-long names are accepted"), okdesc="decoder: labels + length octets <= 254 (255 with the root)")
     # progress: every cycle moves the cursor
-    prog = {e.block.id for e in f.stmts() if (asg(e.node) and key_of(asg(e.node)[0]) == "offset") or (e.node.get("k") == "bin" and e.node.get("op") == "+=" and key_of(e.node["lhs"]) == "offset" and lin(e.node["rhs"]) is not None and lin(e.node["rhs"])[0] >= 1)
+    prog = {e.block.id for e in f.stmts() if (asg(e.node) and key_of(asg(e.node)[0]) == "offset") or (e.node.get("k") == "bin" and e.node.get("op") == "+=" and key_of(e.node["lhs"]) == "offset" and lin(inl(e.node["rhs"])) is not None and lin(inl(e.node["rhs"]))[0] >= 1)
             or (e.node.get("k") == "un" and "++" in e.node.get("op", "") and key_of(e.node["v"]) == "offset")}
     color, cyc = {}, []
 
@@ -412,6 +619,10 @@ def r2(ctx, r):
         if b not in color and b not in prog:
             dfs(b)
     r.instance()
+    vague = [e for e in f.stmts() if e.node.get("k") == "bin" and e.node.get("op") == "+=" and key_of(e.node["lhs"]) == "offset" and e.block.id not in prog]
+    if cyc and vague:
+        # the cursor IS advanced on the cycle, by an amount this rule cannot bound from below: not a verdict
+        raise AnalysisBroken("decodeNameWithLoopDetection: the cursor advances by `%s`, which the rule cannot show to be >= 1 — a shape it does not know" % show(vague[0].node["rhs"])[:60])
     r.expect(not cyc and len(prog) >= 3, f, None, "name loop progress", "a loop iteration of the name decoder neither moves the cursor nor leaves", okdesc="every iteration moves the cursor (%d sites)" % len(prog))
     # RDATA pointer: range test before decodeName
     g = dm(ctx, "decodeNameFromRdata")
@@ -431,40 +642,128 @@ def r2(ctx, r):
     r.expect(ok, g, None, "RDATA name start", "decodeNameFromRdata starts decoding at a position not tested against the message size", okdesc="both decodeName starts inside the message")
 
 
+COUNTS = {"qdcount": "parseQuestion", "ancount": "parseResourceRecord", "nscount": "parseResourceRecord", "arcount": "parseResourceRecord"}
+HDRF = "iora::network::dns::DnsHeader::"
+
+
+def _hdr_count(n):
+    """the header count an expression IS (casts removed): the member DnsHeader::<count>, whatever object it is read from"""
+    n = strip_casts(n)
+    if n is not None and n.get("k") == "member" and (n.get("n") or "").startswith(HDRF) and last(n["n"]) in COUNTS:
+        return last(n["n"])
+    return None
+
+
+def _count_loops(f):
+    """[(loop head, bound operand)] of the loops that run exactly BOUND times: `for (iv = 0; iv < BOUND; …)`, operands either way
+    round, `!=` as well; iv a local that starts at 0"""
+    out = []
+    for b in f.blocks.values():
+        if b.cond is None or not b.term or b.term.get("k") not in ("ForStmt", "WhileStmt") or len(b.succs) != 2:
+            continue
+        for (op, l, rr) in common.cmp_both(b.cond):
+            l_ = strip_casts(l) or {}
+            if op in ("<", "!=") and l_.get("k") == "var" and l_.get("parm") is None:
+                ivd = [v for e in f.stmts() if e.node.get("k") == "decl" for v in e.node["vars"] if v.get("d") == l_.get("d") and v["n"] == l_["n"]]
+                if len(ivd) == 1 and const_value(strip_casts(ivd[0].get("init") or {})) == 0:
+                    out.append((b, rr))
+                    break
+    return out
+
+
+def _loop_step(f, b):
+    """one iteration of the loop headed by b: (names of the section readers it calls, variables threaded through them as
+    `c = reader(…, c, …)` — the reader's result, the position behind what it consumed, becomes the next start)"""
+    body, work, vis = [], [b.succs[0]], set()
+    while work:
+        x = work.pop()
+        if x is None or x == b.id or x in vis:
+            continue
+        vis.add(x)
+        body.extend(f.blocks[x].elems)
+        work.extend(f.blocks[x].succs)
+    readers = [e for e in body if e.kind == "stmt" and e.node.get("k") in ("call", "mcall") and (e.node.get("callee") or "").startswith(DM + "::") and last(e.node["callee"]) in set(COUNTS.values())]
+    ids = {e.node.get("id"): e.node for e in readers}
+    thr = []
+    for e in body:
+        a = asg(e.node) if e.kind == "stmt" else None
+        if a and key_of(a[0]) and (strip_casts(a[1]) or {}).get("id") in ids and any(key_of(strip_casts(x)) == key_of(a[0]) for x in ids[strip_casts(a[1])["id"]].get("args", [])):
+            thr.append(key_of(a[0]))
+    return [last(e.node["callee"]) for e in readers], thr
+
+
 def r3(ctx, r):
+    fb = ctx.fb()
+    lr = LocalClauses(ctx, r)
     f = dm(ctx, "parse", 2)
-    loops = [b for b in f.blocks.values() if b.cond is not None and b.term.get("k") == "ForStmt" and common.cmp_parts(b.cond) and "result.header." in show(common.cmp_parts(b.cond)[2])]
-    want = {"qdcount": "parseQuestion", "ancount": "parseResourceRecord", "nscount": "parseResourceRecord", "arcount": "parseResourceRecord"}
-    seen = {}
-    for b in loops:
-        cnt = show(common.cmp_parts(b.cond)[2]).split(".")[-1]
-        body, work, vis = [], [b.succs[0]], set()
-        while work:
-            x = work.pop()
-            if x is None or x == b.id or x in vis:
-                continue
-            vis.add(x)
-            body.extend(f.blocks[x].elems)
-            work.extend(f.blocks[x].succs)
-        calls = [last(e.node["callee"]) for e in body if e.kind == "stmt" and e.node.get("k") in ("call", "mcall") and last(e.node.get("callee", "")) in ("parseQuestion", "parseResourceRecord")]
-        upd = [e for e in body if e.kind == "stmt" and asg(e.node) and key_of(asg(e.node)[0]) == "offset"]
-        iv = key_of(common.cmp_parts(b.cond)[1])
-        ivd = [v for e in f.stmts() if e.node.get("k") == "decl" for v in e.node["vars"] if v["n"] == iv]
-        seen[cnt] = (calls, len(upd), [v["t"] for v in ivd])
-    for cnt, callee in want.items():
+    # A *section step* decodes one section: a loop that runs <count> times and threads the cursor through one reader call per
+    # iteration.  It is either written in parse() itself (bound = the header field) or in a helper of the class that parse()
+    # hands the header field to (bound = that parameter, never written; the helper threads its own cursor parameter, returns it,
+    # and parse() stores the result in the variable it passed — or decodes nothing afterwards).
+    steps = {}          # count -> [(reader names, parse()'s cursor variable or None, site element, result stored?)]
+    classified = set()  # ids of the DnsHeader::<count> reads accounted for
+    for (b, bound) in _count_loops(f):
+        cnt = _hdr_count(bound)
+        if cnt:
+            calls, thr = _loop_step(f, b)
+            classified.add(strip_casts(bound).get("id"))
+            steps.setdefault(cnt, []).append((calls, thr[0] if len(thr) == 1 else None, b.elems[0] if b.elems else None, True))
+    for e in list(f.stmts()):
+        n = e.node
+        if n.get("k") not in ("call", "mcall") or not (n.get("callee") or "").startswith(DM + "::"):
+            continue
+        cargs = [(i, _hdr_count(a), strip_casts(a)) for i, a in enumerate(n.get("args", [])) if _hdr_count(a)]
+        if not cargs:
+            continue
+        hs_ = resolve_callees(fb, n)
+        if len(hs_) != 1:
+            raise AnalysisBroken("DnsMessage::parse hands a header count to %s, which resolves to %d definitions" % (short(n.get("callee")), len(hs_)))
+        h = hs_[0]
+        for (i, cnt, anode) in cargs:
+            for (b, bound) in _count_loops(h):
+                bn = strip_casts(bound) or {}
+                written = any((asg(x.node) and (strip_casts(asg(x.node)[0]) or {}).get("d") == bn.get("d") and key_of(asg(x.node)[0]) == bn.get("n")) or
+                              (x.node.get("k") in ("un", "bin") and x.node.get("op") in ("++", "--", "post++", "post--", "pre++", "pre--", "+=", "-=") and key_of(x.node.get("v") or x.node.get("lhs")) == bn.get("n")) for x in h.stmts())
+                if not (bn.get("k") == "var" and bn.get("parm") == i and not written):
+                    continue
+                calls, thr = _loop_step(h, b)
+                cur, stored = None, False
+                pk = [j for j, p_ in enumerate(h.params) if len(thr) == 1 and p_.get("n") == thr[0]]
+                rets = common.returns(h)
+                pt = h.params[pk[0]].get("t", "") if len(pk) == 1 else ""
+                if len(pk) == 1 and "&" in pt and not pt.startswith("const "):
+                    # the helper's cursor IS the caller's variable (reference parameter): nothing to return or store
+                    cur, stored = key_of(strip_casts(n["args"][pk[0]])), True
+                elif len(pk) == 1 and rets and all(key_of(strip_casts(x.node.get("v") or {})) == thr[0] for x in rets):
+                    cur = key_of(strip_casts(n["args"][pk[0]]))
+                    stored = any(asg(x.node) and (strip_casts(asg(x.node)[1]) or {}).get("id") == n.get("id") and key_of(asg(x.node)[0]) == cur for x in f.stmts())
+                classified.add(anode.get("id"))
+                steps.setdefault(cnt, []).append((calls, cur, e, stored))
+    # a helper call whose result is dropped leaves parse()'s cursor where it was: fine only if nothing is decoded after it
+    sites = [st[2] for v in steps.values() for st in v if st[2] is not None]
+    for cnt in list(steps):
+        steps[cnt] = [(c, (cur if stored or not any(o is not site and search(f, site, lambda x, o=o: x is o, eh=False) is not None for o in sites) else None), site, stored) for (c, cur, site, stored) in steps[cnt]]
+    cursors = {st[1] for v in steps.values() for st in v if st[1] is not None}      # the sections must share ONE cursor variable
+    for cnt, callee in COUNTS.items():
         r.instance()
-        got = seen.get(cnt)
-        r.expect(got is not None and got[0] == [callee] and got[1] == 1, f, None, "section loop: %s" % cnt, "the %s section is not decoded by one %s call per count with the cursor threaded through (%s)" % (cnt, callee, got),
-                 okdesc="%s × %s, offset threaded" % (cnt, callee))
+        got = steps.get(cnt)
+        if not got:
+            # the count is consumed somewhere the rule did not follow (anything but sizing a container): refuse; not consumed at all: report
+            other = [x for e in f.stmts() if "root" in e.raw and not (e.node.get("k") == "mcall" and last(e.node.get("callee", "")) == "reserve") for x in walk(e.node) if _hdr_count(x) == cnt and x.get("id") not in classified]
+            if other:
+                raise AnalysisBroken("DnsMessage::parse uses header.%s in `%s`, a shape of section decoding this rule does not know" % (cnt, show(f.root_elem(other[0]).node if f.root_elem(other[0]) else other[0])[:70]))
+        ok = bool(got) and len(got) == 1 and got[0][0] == [callee] and got[0][1] is not None and len(cursors) == 1
+        r.expect(ok, f, got[0][2] if got else None, "section loop: %s" % cnt, "the %s section is not decoded by one %s call per count with the cursor threaded through (%s)" % (cnt, callee, [(g_[0], g_[1]) for g_ in got] if got else None),
+                 okdesc="%s × %s, cursor `%s` threaded" % (cnt, callee, got[0][1] if got else "-"))
     hs = [b for b in f.blocks.values() if b.cond is not None and common.cmp_parts(b.cond) and key_of(common.cmp_parts(b.cond)[1]) == "size" and "DNS_HEADER_SIZE" in show(common.cmp_parts(b.cond)[2]) or
           (b.cond is not None and common.cmp_parts(b.cond) and key_of(common.cmp_parts(b.cond)[1]) == "size" and const_value(common.cmp_parts(b.cond)[2]) == 12)]
     r.instance()
-    r.expect(len(hs) == 1 and any(x.kind == "stmt" and x.node.get("k") == "throw" for x in _reach_until_ret(f, hs[0].succs[0])), f, None, "header size", "a message shorter than the header is not rejected", okdesc="size < 12 → throw")
+    lr.expect(len(hs) == 1 and any(x.kind == "stmt" and x.node.get("k") == "throw" for x in _reach_until_ret(f, hs[0].succs[0])), f, None, "header size", "a message shorter than the header is not rejected", okdesc="size < 12 → throw")
     # the counts are the 16-bit header fields read by parseHeader
     ph = dm(ctx, "parseHeader")
     fields = [show(strip_casts(asg(e.node)[0])) for e in ph.stmts() if asg(e.node) and "count" in show(asg(e.node)[0]) and "readUint16" in show(asg(e.node)[1])]
     r.instance()
-    r.expect(fields == ["header.qdcount", "header.ancount", "header.nscount", "header.arcount"] or sorted(fields) == sorted(["header.qdcount", "header.ancount", "header.nscount", "header.arcount"]), ph, None, "header counts", "parseHeader does not read the four counts as 16-bit fields", okdesc="four 16-bit counts")
+    lr.expect(fields == ["header.qdcount", "header.ancount", "header.nscount", "header.arcount"] or sorted(fields) == sorted(["header.qdcount", "header.ancount", "header.nscount", "header.arcount"]), ph, None, "header counts", "parseHeader does not read the four counts as 16-bit fields", okdesc="four 16-bit counts")
 
 
 def r4(ctx, r):
@@ -521,25 +820,46 @@ def r5(ctx, r):
     r.instance()
     ok = len(hs) >= 1 and all(all(x in " ".join(show(e.node) for e in g.stmts()) for x in ("qname", "qtype", "qclass")) for g in hs)
     r.expect(ok or len(hs) >= 1, hs[0] if hs else fq, None, "cache key hash", "no hash for DnsCacheKey found", okdesc="hash over the key fields")
-    # every cache access builds the key through fromQuestion
+    # every cache access builds the key through fromQuestion: the key argument is a local initialised by
+    # DnsCacheKey::fromQuestion(<a parameter>), or — when the access sits in a helper that takes the key as a parameter — it is
+    # such a local at every call site of the helper (followed through the call graph; a helper nobody calls has no key to judge)
+    FQ = "iora::network::dns::DnsCacheKey::fromQuestion"
+    cg = ctx.cg()
+
+    def key_sources(f, knode, depth=0):
+        """[(function, True/False)] — one verdict per calling context in which the key expression `knode` of f is evaluated"""
+        kn = strip_views(knode) or {}
+        if kn.get("k") != "var" or depth > 3:
+            return [(f, False)]
+        if kn.get("parm") is not None:
+            out = []
+            for (c, ce, cn) in cg.callers.get(f.name, []):
+                if c.ok and len(cn.get("args", [])) == len(f.params) and f in resolve_callees(fb, cn):
+                    out.extend(key_sources(c, cn["args"][kn["parm"]], depth + 1))
+            return out or [(f, False)]
+        kd = [v for d in f.stmts() if d.node.get("k") == "decl" for v in d.node["vars"] if v.get("d") == kn.get("d") and v["n"] == kn["n"]]
+        init = strip_views(kd[0].get("init")) if len(kd) == 1 and kd[0].get("init") is not None else None
+        rewritten = any(asg(x.node) and key_of(asg(x.node)[0]) == kn["n"] for x in f.stmts())
+        good = init is not None and init.get("k") == "call" and init.get("callee") == FQ and len(init.get("args", [])) == 1 and (strip_views(init["args"][0]) or {}).get("parm") is not None and not rewritten
+        return [(f, good)]
     n = 0
     for f in fb.methods_of(DC):
         if not f.ok:
             continue
         for e in f.stmts():
             if e.node.get("k") == "mcall" and last(e.node.get("callee", "")) in ("get", "set", "remove") and "ExpiringCache" in e.node.get("callee", ""):
-                n += 1
-                karg = key_of(strip_views(e.node["args"][0]))
-                kd = [v for d in f.stmts() if d.node.get("k") == "decl" for v in d.node["vars"] if v["n"] == karg]
-                r.instance()
-                r.expect(len(kd) == 1 and kd[0].get("init") is not None and "fromQuestion(question)" in show(kd[0]["init"]), f, e, "cache key source", "%s accesses the cache with a key not built by DnsCacheKey::fromQuestion(question)" % short(f.name),
-                         okdesc="%s: key = fromQuestion(question)" % last(f.name))
+                for (ctxf, good) in key_sources(f, e.node["args"][0]):
+                    n += 1
+                    r.instance()
+                    r.expect(good, f, e, "cache key source", "%s accesses the cache with a key %snot built by DnsCacheKey::fromQuestion(question)" % (short(f.name), "(handed in by %s) " % short(ctxf.name) if ctxf is not f else ""),
+                             okdesc="%s: key = fromQuestion(question)%s" % (last(f.name), " at the call in %s" % last(ctxf.name) if ctxf is not f else ""))
     if n < 7:
         raise AnalysisBroken("only %d cache accesses in DnsCache (floor 7)" % n)
 
 
 def r6(ctx, r):
     fb = ctx.fb()
+    lr = LocalClauses(ctx, r)
     gets = [g for g in fb.funcs(EC + "::get") if g.ok]
     sets = [g for g in fb.funcs(EC + "::set") if g.ok]
     if not gets or not sets:
@@ -552,15 +872,15 @@ def r6(ctx, r):
         vals = [e for e in common.returns(g) if ".value" in show(e.node)]
         r.instance()
         ok = len(eb) == 1 and len(vals) >= 1 and fresh_test(eb[0])[0] == ">" and all(dominated_by_edge(g, e, eb[0], 0, eh=False) for e in vals) and "steady_clock::now" in show(eb[0].cond)
-        r.expect(ok, g, vals[0] if vals else None, "expired entry served", "ExpiringCache::get returns a stored value on a path that did not establish `expiration > steady_clock::now()`", okdesc="value only on expiration > now()")
+        lr.expect(ok, g, vals[0] if vals else None, "expired entry served", "ExpiringCache::get returns a stored value on a path that did not establish `expiration > steady_clock::now()`", okdesc="value only on expiration > now()")
         rets = [e for e in common.returns(g) if e not in vals]
         r.instance()
-        r.expect(all("nullopt" in show(e.node) for e in rets) and rets, g, None, "miss result", "a miss does not return nullopt", okdesc="otherwise nullopt")
+        lr.expect(all("nullopt" in show(e.node) for e in rets) and rets, g, None, "miss result", "a miss does not return nullopt", okdesc="otherwise nullopt")
     for g in sets:
         ed = [v for e in g.stmts() if e.node.get("k") == "decl" for v in e.node["vars"] if v["n"] == "expiration"]
         r.instance()
         ok = len(ed) == 1 and "steady_clock::now()" in show(ed[0]["init"]) and "customTtl" in show(ed[0]["init"]) and "_ttl" in show(ed[0]["init"])
-        r.expect(ok, g, None, "expiration computation", "set() does not compute expiration = now + (customTtl > 0 ? customTtl : default)", okdesc="expiration = now + (ttl > 0 ? ttl : default)")
+        lr.expect(ok, g, None, "expiration computation", "set() does not compute expiration = now + (customTtl > 0 ? customTtl : default)", okdesc="expiration = now + (ttl > 0 ? ttl : default)")
         # an unconditional store of the fresh expiration: whole-entry assignment / insert_or_assign / field assignment, on every path to the exit
         stores = []
         for e in g.stmts():
@@ -572,7 +892,7 @@ def r6(ctx, r):
                 stores.append(e)
         r.instance()
         w = search(g, ("entry",), "exit", stop=lambda x: x in stores, eh=False)
-        r.expect(bool(stores) and w is None, g, None, "stale expiration kept", "ExpiringCache::set can return without having stored the freshly computed `expiration` in the entry (e.g. try_emplace/emplace/insert leave an existing entry's "
+        lr.expect(bool(stores) and w is None, g, None, "stale expiration kept", "ExpiringCache::set can return without having stored the freshly computed `expiration` in the entry (e.g. try_emplace/emplace/insert leave an existing entry's "
                  "expiration untouched): re-caching an answer with a shorter TTL keeps the old, later expiry and the entry is served after its TTL elapsed", witness=witness_str(g, w), okdesc="fresh expiration stored on every path")
     # DnsCache: TTL source and zero guard
     for nm, npar, ttlvar in (("put", 2, "ttl"), ("putNegative", 4, "negativeTtl")):
@@ -584,12 +904,12 @@ def r6(ctx, r):
         zb = [b for b in f.blocks.values() if b.cond is not None and common.cmp_parts(b.cond) and key_of(common.cmp_parts(b.cond)[1]) == ttlvar and const_value(common.cmp_parts(b.cond)[2]) == 0 and common.cmp_parts(b.cond)[0] == "=="]
         r.instance()
         ok = len(st) == 1 and len(zb) == 1 and dominated_by_edge(f, st[0], zb[0], 1, eh=False) and ttlvar in show(st[0].node["args"][2]) and "duration" in show(st[0].node["args"][2])
-        r.expect(ok, f, st[0] if st else None, "zero TTL cached: %s" % nm, "DnsCache::%s hands its TTL to ExpiringCache::set without excluding 0, which set() treats as 'use the default TTL': a do-not-cache answer is served for minutes" % nm,
+        lr.expect(ok, f, st[0] if st else None, "zero TTL cached: %s" % nm, "DnsCache::%s hands its TTL to ExpiringCache::set without excluding 0, which set() treats as 'use the default TTL': a do-not-cache answer is served for minutes" % nm,
                  okdesc="%s: ttl == 0 → not cached; else set(…, seconds(ttl))" % nm)
     put = [g for g in fb.funcs(DC + "::put", DCF) if g.ok][0]
     tv = [v for e in put.stmts() if e.node.get("k") == "decl" for v in e.node["vars"] if v["n"] == "ttl"]
     r.instance()
-    r.expect(len(tv) == 1 and "calculateResultTtl(result)" in show(tv[0]["init"]), put, None, "TTL source", "put() does not take the TTL from calculateResultTtl(result)", okdesc="ttl = calculateResultTtl(result)")
+    lr.expect(len(tv) == 1 and "calculateResultTtl(result)" in show(tv[0]["init"]), put, None, "TTL source", "put() does not take the TTL from calculateResultTtl(result)", okdesc="ttl = calculateResultTtl(result)")
     # table agreement: every record collection of DnsResult is part of the minimum
     crt = [g for g in fb.funcs(DC + "::calculateResultTtl", DCF) if g.ok][0]
     rec = fb.record("iora::network::dns::DnsResult")
@@ -603,20 +923,119 @@ def r6(ctx, r):
     RES = "iora::network::dns::DnsResult::"
     via_addr = {last(x["v"]["n"]) for e in crt.stmts() for x in walk(e.node) if x.get("k") == "un" and x.get("op") == "&" and (x.get("v") or {}).get("k") == "member" and x["v"]["n"].startswith(RES)}
     covered = {c for c in colls if "result." + c in ranges} | (via_addr & set(colls))
+    # … or as the argument of a helper of the class that, on every path, lowers one of its reference parameters to the smallest
+    # .ttl of that very parameter (`lowerTo(result.answers, min_ttl)`): the helper's loop is judged like a loop written here,
+    # its accumulator parameter is mapped back to the caller's argument
+    via_helper, unknown_use, dropped, accs = set(), {}, {}, set()
+    for e in crt.stmts():
+        n = e.node
+        if n.get("k") not in ("call", "mcall") or not (n.get("callee") or "").startswith(DC + "::"):
+            continue
+        for i, a in enumerate(n.get("args", [])):
+            m = strip_views(a) or {}
+            if not (m.get("k") == "member" and (m.get("n") or "").startswith(RES) and last(m["n"]) in colls):
+                continue
+            hs_ = resolve_callees(fb, n)
+            vs = [_helper_folds(h, i) for h in hs_]
+            if hs_ and all(v is not None for v in vs) and len(set(vs)) == 1 and key_of(strip_views(n["args"][vs[0][0]])):
+                if vs[0][1]:
+                    via_helper.add(last(m["n"]))
+                    accs.add(key_of(strip_views(n["args"][vs[0][0]])))
+                else:
+                    dropped[last(m["n"])] = (short(n["callee"]), hs_[0].params[vs[0][0]].get("n"))
+            else:
+                unknown_use[last(m["n"])] = short(n["callee"])
+    covered |= via_helper
+    # a collection the function never reads is ignored (a verdict); one it reads in some other way (an <algorithm> call over its
+    # iterators, the whole DnsResult handed on) is a shape the rule does not know (a refusal)
+    read_here = {last(x["n"]) for e in crt.stmts() for x in walk(e.node) if x.get("k") == "member" and (x.get("n") or "").startswith(RES)}
+    whole = [e for e in crt.stmts() if e.node.get("k") in ("call", "mcall", "opcall", "ctor") and any((strip_views(a) or {}).get("k") == "var" and (strip_views(a) or {}).get("parm") == 0 for a in e.node.get("args", []))]
     for c in colls:
         r.instance()
-        r.expect(c in covered, crt, None, "TTL ignores %s" % c, "calculateResultTtl does not include DnsResult::%s in the minimum: a record there with a shorter TTL is served after it expired" % c, okdesc="min over result.%s" % c)
+        if c not in covered and c not in dropped and (c in unknown_use or c in read_here or whole):
+            raise AnalysisBroken("calculateResultTtl %s, which does not fold the minimum in a shape this rule knows" % (
+                "hands result.%s to %s" % (c, unknown_use[c]) if c in unknown_use else "reads result.%s outside a record loop" % c if c in read_here else "hands the whole DnsResult to `%s`" % show(whole[0].node)[:50]))
+        r.expect(c in covered, crt, None, "TTL ignores %s" % c, "calculateResultTtl does not include DnsResult::%s in the minimum%s: a record there with a shorter TTL is served after it expired" % (
+            c, " (%s lowers its BY-VALUE parameter `%s`: the result never reaches the caller)" % dropped[c] if c in dropped else ""), okdesc="min over result.%s" % c)
     mins = [e for e in crt.stmts() if asg(e.node) and "std::min" in show(asg(e.node)[1]) and key_of(asg(e.node)[0]) is not None and key_of(asg(e.node)[0]) in show(asg(e.node)[1])]
     loops = [b for b in crt.blocks.values() if b.term and b.term.get("k") == "CXXForRangeStmt" and b.cond is not None]
     # innermost record loops: loops whose body contains no other loop head
     inner = [b for b in loops if not any(o is not b and search(crt, ("block", b.succs[0]), lambda x, o=o: x.block is o, stop=lambda x, b=b: x.block is b, eh=False) is not None for o in loops)]
     r.instance()
-    okm = bool(inner) and all(any(search(crt, ("block", b.succs[0]), lambda x, m=m: x is m, stop=lambda x, b=b: x.block is b, eh=False) is not None and ".ttl" in show(asg(m.node)[1]) for m in mins) for b in inner)
-    r.expect(okm, crt, None, "minimum computation", "a record loop of calculateResultTtl does not fold `x = std::min(x, record.ttl)`", okdesc="%d record loops fold the minimum" % len(inner))
-    cn = [g for g in fb.funcs(DC + "::calculateNegativeTtl", DCF) if g.ok][0]
-    rt = [e for e in common.returns(cn) if "record.minimum" in show(e.node)]
+    okm = (bool(inner) or bool(via_helper)) and all(any(search(crt, ("block", b.succs[0]), lambda x, m=m: x is m, stop=lambda x, b=b: x.block is b, eh=False) is not None and ".ttl" in show(asg(m.node)[1]) for m in mins) for b in inner)
+    r.expect(okm, crt, None, "minimum computation", "a record loop of calculateResultTtl does not fold `x = std::min(x, record.ttl)`", okdesc="%d record loops%s fold the minimum" % (len(inner), " and %d helper calls" % len(via_helper) if via_helper else ""))
+    # one accumulator: every fold — written here or done by a helper — lowers the same variable, and that variable is what every
+    # return hands back (a fold into a scratch variable would be computed and dropped)
+    accs |= {key_of(asg(m.node)[0]) for m in mins if ".ttl" in show(asg(m.node)[1])}
+    rets = common.returns(crt)
     r.instance()
-    r.expect(len(rt) == 1 and "std::min" in show(rt[0].node) and "record.ttl" in show(rt[0].node), cn, None, "negative TTL", "the negative-caching TTL is not min(SOA.minimum, SOA ttl)", okdesc="negative TTL = min(SOA minimum, ttl)")
+    if len(accs) == 1 and rets and not all(any(x.get("k") == "var" and x["n"] in accs for x in walk(e.node)) for e in rets):
+        raise AnalysisBroken("calculateResultTtl: a return does not mention the accumulator `%s` — a shape this rule does not know" % sorted(accs)[0])
+    r.expect(len(accs) == 1, crt, None, "minimum accumulator", "the minimum TTL is accumulated in %s: the folds do not lower one and the same variable, so part of the minimum is computed and dropped" % (sorted(accs) or "no variable"),
+             okdesc="one accumulator `%s`, returned" % (sorted(accs)[0] if accs else "-"))
+    cn = [g for g in fb.funcs(DC + "::calculateNegativeTtl", DCF) if g.ok][0]
+    # min(SOA.minimum, SOA.ttl) of ONE record: both operands are members of SoaRecord read from the same object (whatever the local
+    # that names it is called, a loop variable or `soa_records.front()`; `ttl` is inherited from DnsResourceRecord)
+    SOA = "iora::network::dns::SoaRecord::"
+
+    def soa_min(e):
+        v = strip_views(e.node.get("v")) or {}
+        if v.get("k") != "call" or v.get("callee") != "std::min" or len(v.get("args", [])) != 2:
+            return False
+        ms = [strip_views(a) or {} for a in v["args"]]
+        return all(m.get("k") == "member" for m in ms) and sorted(last(m.get("n", "")) for m in ms) == ["minimum", "ttl"] and any(m.get("n") == SOA + "minimum" for m in ms) and show(ms[0].get("b")) == show(ms[1].get("b"))
+    rt = [e for e in common.returns(cn) if any(x.get("k") == "member" and x.get("n") == SOA + "minimum" for x in walk(e.node))]
+    r.instance()
+    lr.expect(len(rt) == 1 and soa_min(rt[0]), cn, None, "negative TTL", "the negative-caching TTL is not min(SOA.minimum, SOA ttl)", okdesc="negative TTL = min(SOA minimum, ttl)")
+
+
+def _range_loops(f):
+    """[(loop head, range expression, declaration of the loop's element variable)] of the range-for loops of f"""
+    out = []
+    decl = {v["d"]: v for e in f.stmts() if e.node.get("k") == "decl" for v in e.node["vars"] if v.get("d") is not None}
+    for b in f.blocks.values():
+        if not (b.term and b.term.get("k") == "CXXForRangeStmt" and b.cond is not None):
+            continue
+        bv = [x for x in walk(b.cond) if x.get("k") == "var" and x["n"].startswith("__begin")]
+        if len(bv) != 1 or bv[0].get("d") not in decl:
+            continue
+        rv = [x for x in walk(decl[bv[0]["d"]].get("init") or {}) if x.get("k") == "var" and x["n"].startswith("__range")]
+        if len(rv) != 1 or rv[0].get("d") not in decl:
+            continue
+        el = [v for v in decl.values() if not v["n"].startswith("__") and isinstance(v.get("init"), dict) and (strip_casts(v["init"]) or {}).get("k") in ("opcall", "un") and (strip_casts(v["init"]) or {}).get("op") == "*"
+              and any(x.get("k") == "var" and x.get("d") == bv[0]["d"] for x in walk(v["init"]))]
+        out.append((b, strip_views(decl[rv[0]["d"]].get("init")), el[0] if len(el) == 1 else None))
+    return out
+
+
+def _helper_folds(h, i):
+    """(j, by_reference): h, on every path, lowers its parameter j to the smallest .ttl of the elements of its i-th parameter
+    (`for (e : p_i) p_j = std::min(p_j, e.ttl)`, the only write to a parameter in h); by_reference says whether the caller sees the
+    result (a by-value accumulator is lowered and dropped).  None when h does not do exactly that"""
+    mine = [(b, el) for (b, rng, el) in _range_loops(h) if (rng or {}).get("k") == "var" and rng.get("parm") == i and el is not None]
+    if len(mine) != 1:
+        return None
+    b, el = mine[0]
+    if search(h, ("entry",), "exit", stop=lambda x: x.block is b, eh=False) is not None:
+        return None           # a path through the helper that skips the loop
+    folds = []
+    for e in h.stmts():
+        a = asg(e.node)
+        rhs = strip_views(a[1]) if a else None
+        if not a or not rhs or rhs.get("k") != "call" or rhs.get("callee") != "std::min" or len(rhs.get("args", [])) != 2:
+            continue
+        ops = [strip_views(x) or {} for x in rhs["args"]]
+        acc = strip_casts(a[0]) or {}
+        other = [o for o in ops if not (o.get("k") == "var" and o.get("d") == acc.get("d"))]
+        if acc.get("k") == "var" and acc.get("parm") is not None and len(other) == 1 and other[0].get("k") == "member" and last(other[0].get("n", "")) == "ttl" and (strip_casts(other[0].get("b")) or {}).get("d") == el.get("d"):
+            # executed on every iteration: the loop head is not reachable again from the body's start without passing it
+            if search(h, ("block", b.succs[0]), lambda x: x.block is b, stop=lambda x, e=e: x is e, eh=False) is None:
+                folds.append(acc["parm"])
+    writes = [e for e in h.stmts() if asg(e.node) and (strip_casts(asg(e.node)[0]) or {}).get("parm") is not None]
+    if len(folds) != 1 or len(writes) != 1:
+        return None
+    t = h.params[folds[0]].get("t", "")
+    return (folds[0], "&" in t and not t.startswith("const "))
 
 
 def r7(ctx, r):
@@ -626,19 +1045,44 @@ def r7(ctx, r):
     r.instance()
     r.expect(len(lb) == 1 and len(pushes) == 1 and dominated_by_edge(f, pushes[0], lb[0], 1, eh=False) and ("DNS_MAX_LABEL_SIZE" in show(lb[0].cond) or const_value(common.cmp_parts(lb[0].cond)[2]) == 63), f, None, "encoder label limit",
              "encodeName emits a label without the 63-byte test (its length byte would collide with the compression marker)", okdesc="encoder: label <= 63")
-    nb = [b for b in f.blocks.values() if b.cond is not None and common.cmp_parts(b.cond) and "encoded.size()" in show(common.cmp_parts(b.cond)[1])]
-    rets = [e for e in common.returns(f) if search(f, pushes[0], lambda x, e=e: x is e, eh=False) is not None] if pushes else []
+    # the wire-size test: `encoded.size()` against a constant, whichever way round and with whichever of the four operators; `lim` is
+    # the largest size it lets through and `pe` the successor taken when the name is let through
+    def size_test(b):
+        co = common.cmp_oriented(b.cond, lambda x: const_value(x) is not None) if b.cond is not None and len(b.succs) == 2 else None
+        fm = lin(co[1]) if co else None
+        if fm is None or tuple(fm[1]) != ("encoded.size()",):
+            return None
+        cv = const_value(co[2]) - fm[0]        # `encoded.size() + k > L` lets L - k through
+        return {">": (cv, 1), ">=": (cv - 1, 1), "<=": (cv, 0), "<": (cv - 1, 0)}.get(co[0])
+    nb = [b for b in f.blocks.values() if size_test(b)]
     r.instance()
-    r.expect(len(nb) == 1 and rets and all(dominated_by_edge(f, e, nb[0], 1, eh=False) for e in rets), f, None, "encoder name limit", "encodeName returns a name without the 255-byte test", okdesc="encoder: name <= 255")
+    # every label put into `encoded` is followed by the test before the name is returned: from the label push no return is reachable
+    # without taking the test's pass edge (a test inside the label loop and a test after it both do; a name without labels needs none)
+    w = None
+    if len(nb) == 1 and pushes:
+        pe = size_test(nb[0])[1]
+        w = search(f, pushes[0], lambda x: x.kind == "stmt" and x.node.get("k") == "ret", eh=False, edge_ok=lambda b, si: not (b is nb[0] and si == pe))
+    r.expect(len(nb) == 1 and bool(pushes) and w is None, f, None, "encoder name limit", "encodeName can return a name to which a label was added without passing the 255-octet test (%s)" % (witness_str(f, w) if w else "%d size tests" % len(nb)),
+             okdesc="encoder: every label is followed by the wire-size test")
     if len(nb) == 1:
-        co = common.cmp_oriented(nb[0].cond, lambda x: const_value(x) is not None)
         r.instance()
-        # `encoded` holds the labels with their length octets; whether the root octet is already in it decides the constant
-        root_in = any(e.node.get("k") == "mcall" and last(e.node.get("callee", "")) == "push_back" and const_value(strip_casts(e.node["args"][0])) == 0 and search(f, e, lambda x: x.block is nb[0], eh=False) is not None for e in f.stmts())
+        # `encoded` holds the labels with their length octets; whether the terminating root octet is already in it WHEN THE TEST IS
+        # EVALUATED decides the constant: 255 with it, 254 before it
+        roots = [e for e in f.stmts() if e.node.get("k") == "mcall" and last(e.node.get("callee", "")) == "push_back" and const_value(strip_casts(e.node["args"][0])) == 0 and key_of(e.node.get("obj")) == "encoded"]
+        before = [e for e in roots if search(f, e, lambda x: x.block is nb[0], eh=False) is not None]
+        root_in = any(e.block.id in dominators(f, False)[nb[0].id] for e in before)
+        if before and not root_in:
+            raise AnalysisBroken("encodeName: the root octet is in `encoded` on some paths to the size test and not on others")
+        later = [e for e in roots if e not in before and search(f, ("block", nb[0].succs[size_test(nb[0])[1]]), lambda x, e=e: x is e, eh=False) is not None]
         want = 255 if root_in else 254
-        mx = (const_value(co[2]) - (1 if co[0] == ">=" else 0)) if co and co[0] in (">", ">=") else None
-        r.expect(mx == want, f, None, "encoder name limit value", "encodeName accepts an encoded name of up to %s octets %s the root octet; RFC 1035 allows %d there: %s" % (
-            mx, "including" if root_in else "before", want, "legal 252/253-character names are refused" if (mx or 0) < want else "over-long names are emitted"), okdesc="encoder: wire name <= 255")
+        mx = size_test(nb[0])[0]
+        if mx is not None and mx > want and not root_in and later:
+            msg = ("encodeName compares encoded.size() with %d BEFORE the terminating root octet is appended (the test at line %s is passed first, `encoded.push_back(0)` at line %d follows it): labels and length octets may total %d, "
+                   "the finished name is %d octets on the wire — over RFC 1035's 255 — and the library's own decoder rejects the query it built" % (mx, nb[0].term.get("l") or (nb[0].elems[-1].line if nb[0].elems else "?"), later[0].line, mx, mx + 1))
+        else:
+            msg = "encodeName accepts an encoded name of up to %s octets %s the root octet; RFC 1035 allows %d there: %s" % (
+                mx, "including" if root_in else "before", want, "legal 252/253-character names are refused" if (mx or 0) < want else "over-long names are emitted")
+        r.expect(mx == want, f, nb[0].elems[-1] if nb[0].elems else None, "encoder name limit value", msg, okdesc="encoder: wire name <= 255 (root octet %s)" % ("counted by the test" if root_in else "added after a 254 test"))
     # query field order agrees with the decoder: id, flags, counts; per question name, type, class
     bq = [g for g in ctx.fb().funcs(DM + "::buildQuery", DMF) if g.ok and len(g.params) == 3]
     r.instance()
@@ -718,6 +1162,7 @@ def r9(ctx, r):
     W16, W32 = "readUint16", "readUint32"
     for npar in (4, 5):
         f = dm(ctx, "parseResourceRecord", npar)
+        f = forward_target(ctx.fb(), f) or f      # an overload that only forwards its parameters has the layout of its target
         got = [(t, w) for (t, w, o) in field_reads(f, "rr.")]
         r.instance()
         r.expect(got == [("rr.type", W16), ("rr.cls", W16), ("rr.ttl", W32), ("rr.rdlength", W16)], f, None, "record header layout", "parseResourceRecord/%d reads the fixed part as %s (RFC 1035 4.1.3: TYPE16 CLASS16 TTL32 RDLENGTH16)" % (npar, got),
@@ -846,6 +1291,51 @@ def r10(ctx, r):
                      "message through (answers=1, cname_records=0) — the resolver caches a CNAME that lost its target" % (short(g.name), short(e.node["t"])), okdesc="%s: pointer error → DnsCompressionException" % short(g.name))
     if nthrow < 3:
         raise AnalysisBroken("only %d pointer-error throw sites found" % nthrow)
+    # (b2) a pointer loop is ended by the visited set OR by the name-length limit, whichever comes first (a cycle longer than half
+    # the limit reaches the limit before it meets the same pointer twice): once a pointer has been followed, the length-limit
+    # failure is a pointer error too.  `followed` = the bool local that is set in the branch that assigns the cursor from the pointer.
+    jl = None
+    for e in f.stmts():
+        a_ = asg(e.node)
+        if a_ and strip_casts(a_[0]).get("k") == "var" and (strip_casts(a_[0]).get("t") or "").replace("const ", "") == "bool" and const_value(strip_casts(a_[1])) == 1:
+            # set on the pointer side: dominated by the compression-mask test
+            if any(t and any(x.get("k") in ("gvar", "member", "enum") and "DNS_COMPRESSION_MASK" in (x.get("n") or "") for x in walk(c)) for (c, t) in dominating_facts(f, e)):
+                jl = strip_casts(a_[0])
+    limb = [b for b in f.blocks.values() if b.cond is not None and any(x.get("k") in ("gvar", "member", "enum") and "DNS_MAX_NAME_WIRE_SIZE" in (x.get("n") or "") for x in walk(b.cond))]
+    r.instance()
+    if jl is None or not limb:
+        raise AnalysisBroken("decodeNameWithLoopDetection: the `pointer followed` flag / the name-length limit test was not identified")
+    vocab2 = Vocab(["followed"])
+
+    def leaf2(n):
+        if n.get("k") == "var" and n.get("d") == jl.get("d"):
+            return A("followed")
+        return None
+
+    def eff2(e):
+        if e.kind != "stmt":
+            return None
+        a_ = asg(e.node)
+        if a_ and strip_casts(a_[0]).get("k") == "var" and strip_casts(a_[0]).get("d") == jl.get("d"):
+            cv_ = const_value(strip_casts(a_[1]))
+            return [("set", "followed", bool(cv_))] if cv_ is not None else [("havoc", "followed")]
+        if e.node.get("k") == "decl":
+            for v in e.node["vars"]:
+                if v.get("d") == jl.get("d"):
+                    cv_ = const_value(strip_casts(v.get("init") or {}))
+                    return [("set", "followed", bool(cv_))] if cv_ is not None else [("havoc", "followed")]
+        return None
+    pa2 = PredAbs(f, vocab2, leaf2, eff2, eh=False)
+    lim_throws = [e for e in f.stmts() if e.node.get("k") == "throw" and e.node.get("t") and any(search(f, ("block", [s_ for i_, s_ in enumerate(b.succs) if b.edge_label(i_) is True][0]), lambda x, e=e: x is e, eh=False) is not None
+                                                                                                  and not search(f, ("block", [s_ for i_, s_ in enumerate(b.succs) if b.edge_label(i_) is False][0]), lambda x, e=e: x is e, eh=False,
+                                                                                                                 stop=lambda x, b=b: x.block is b) for b in limb)]
+    if not lim_throws:
+        raise AnalysisBroken("decodeNameWithLoopDetection: no throw behind the name-length limit test")
+    bad = [e for e in lim_throws if e.node["t"] != CE and not pa2.entails(e, Not(A("followed")))]
+    r.expect(not bad, f, bad[0] if bad else lim_throws[0], "pointer loop ended by the length limit is tolerated",
+             "decodeNameWithLoopDetection reports `name too long` as %s also after a compression pointer was followed: a pointer loop whose cycle is 128 octets or more (labels 63+63+63+61 and a pointer back) "
+             "reaches the 255-octet limit before it meets the same pointer twice, parseTypedRecord tolerates that type per record, and the message decodes with the looping CNAME/MX/SRV target silently dropped"
+             % (short(bad[0].node["t"]) if bad else "?"), okdesc="name-length failure after a followed pointer → DnsCompressionException")
     ptr = dm(ctx, "parseTypedRecord")
     for t in ptr.trys.values():
         hs = [h if isinstance(h, str) else (h.get("t") or "...") for h in t.get("handlers", [])]
